@@ -48,7 +48,7 @@ def run(report: Report, tier, seed):
             nontrivial += 1 if r["nontrivial"] else 0
         if r["mismatches"]:
             only_stack = all(m["kind"] == "stack" for m in r["mismatches"])
-            opt_on_only = all("ss=True" in m["options"] for m in r["mismatches"])
+            opt_on_only = all(e2e.optimizer_on(m["options"], s["version"]) for m in r["mismatches"])
             rec = {"input": {"spec": s}, "mismatches": r["mismatches"][:3], "program": r.get("program"), "teal": r["teals"]}
             if only_stack and opt_on_only and r.get("known_multistore"):
                 known.append(rec)
